@@ -96,6 +96,23 @@ func edgeGrid(m *big.Int) []*big.Int {
 		put(add(pow2(k), 1))
 		put(new(big.Int).Sub(m, pow2(k)))
 	}
+	// limb-steered neighbours of the constants comparisons are made against ((m-1)/2, m-1, 2^256-m): equal to the constant in every
+	// 64-bit limb but one
+	for _, K := range []*big.Int{half, add(m, -1), c} {
+		kl := bigToLimbs(K)
+		for limb := 0; limb < 4; limb++ {
+			for _, d := range []int64{1, 2} {
+				dd := new(big.Int).Lsh(big.NewInt(d), uint(64*limb))
+				put(new(big.Int).Add(K, dd))
+				put(new(big.Int).Sub(K, dd))
+			}
+			for _, repl := range []uint64{0, 0xffffffffffffffff, kl[limb] ^ (1 << 63), kl[limb] ^ 1} {
+				l2 := kl
+				l2[limb] = repl
+				put(limbsToBig(l2))
+			}
+		}
+	}
 	// limb patterns
 	pats := []uint64{0, 1, 0xffffffffffffffff, 0x8000000000000000, 0x7fffffffffffffff, 0xaaaaaaaaaaaaaaaa, 0x00000000ffffffff, 0xffffffff00000000}
 	for _, a := range pats {
